@@ -187,7 +187,9 @@ func (h Handler) ServeHTTP(w http.ResponseWriter, r *http.Request) (int, error) 
 			// Write the response body
 			_, err = io.Copy(w, resp.Body)
 			if err != nil {
-				return http.StatusBadGateway, err
+				// the response has been started: nobody may write
+				// an error page on top of it, the error is for the log
+				return 0, err
 			}
 
 			// Log any stderr output from upstream
